@@ -226,8 +226,9 @@ def is_order_independent(choices: list[ChoiceChoice]) -> bool:
 
     def overlaps(a: ChoiceChoice, b: ChoiceLiteral) -> bool:
         # `b` is a multi-character literal that is moved in front of `a`.
-        if isinstance(a, UnicodePropertyRule):
-            return True  # unknown: be conservative
+        if isinstance(a, UnicodePropertyRule) or not b.value:
+            # Unknown, or `b` is the empty literal, which matches everywhere.
+            return True
         insensitive = b.case == ChoiceCase.INSENSITIVE or (
             isinstance(a, ChoiceLiteral) and a.case == ChoiceCase.INSENSITIVE
         )
